@@ -140,6 +140,8 @@ fn real_main(mut args: Vec<String>) -> i32 {
                 "C06" | "C18" => props::e3::run(prop, &tier, seed),
                 "C08" => props::c08::run(&tier, seed),
                 "C07" => props::c07::run(&tier, seed),
+                "C09" => props::c09::run(&tier, seed),
+                "C10" => props::c10::run(&tier, seed),
                 _ => {
                     out!("MACHINERY-ERROR: unknown property {}", prop);
                     return 2;
@@ -181,6 +183,8 @@ fn replay(path: &str, worker: bool) -> i32 {
             "e3-word" => props::e3::replay(&prop, r),
             "c08-tiny" => props::c08::replay(r),
             "c07-stop" => props::c07::replay(r),
+            "c09-root" => props::c09::replay(r),
+            "c10-root" => props::c10::replay(r),
             _ => Err(format!("unknown replay kind {:?}", kind)),
         }
     };
